@@ -9,7 +9,7 @@
 (*   <<"REJECT", tid, {clauses}>>                                          *)
 (* and a deviation that is a listed known finding as <<"KNOWN", tid, sig>>.*)
 (***************************************************************************)
-EXTENDS PuanCtor, PuanPolyOps, PuanPrioOps, Json, IOUtils
+EXTENDS PuanExtra, Json, IOUtils
 
 Trace == ndJsonDeserialize(IOEnv.TRACE_FILE)
 
@@ -357,6 +357,7 @@ Verdict(e) ==
      [] e.op = "exc"       -> {"no_exception"}
      [] e.op \in PolyOpNames -> PolyVerdict(e)
      [] e.op \in PrioOpNames -> PrioVerdict(e)
+     [] e.op \in ExtraOpNames -> ExtraVerdict(e)
      [] OTHER              -> {"unknown_op"})
   \cup EvPure(e)
 
